@@ -37,6 +37,37 @@ def showState : Option UInt32 → String
   | some s => hexOfNat32 s.toNat
   | none => "oob"
 
+def bytesOfV4 (v : V4) : List UInt8 :=
+  Spec.le32enc v.x0 ++ Spec.le32enc v.x1 ++ Spec.le32enc v.x2 ++ Spec.le32enc v.x3
+
+def le32OfBytes : List UInt8 → Option UInt32
+  | [a, b, c, d] => some (Spec.le32 a b c d)
+  | _ => none
+
+/-- one instruction, by the SDM transcription of `Model.CpuPaths` (L2: ties the model's instruction
+    semantics to what the CPU does) -/
+def insn (name : String) (ops : List (List UInt8)) : Option String :=
+  match name, ops with
+  | "crc32", [st, src] =>
+      if src.length = 1 ∨ src.length = 4 ∨ src.length = 8 then
+        (le32OfBytes st).map fun s => hexOfNat32 (crc32Insn s src).toNat
+      else none
+  | "rnds2", [a, b, k] => do
+      let a ← lanesOfBytes a; let b ← lanesOfBytes b; let k ← lanesOfBytes k
+      pure (hexOfBytes (bytesOfV4 (sha256rnds2 a b k)))
+  | "msg1", [a, b] => do
+      let a ← lanesOfBytes a; let b ← lanesOfBytes b
+      pure (hexOfBytes (bytesOfV4 (sha256msg1 a b)))
+  | "msg2", [a, b] => do
+      let a ← lanesOfBytes a; let b ← lanesOfBytes b
+      pure (hexOfBytes (bytesOfV4 (sha256msg2 a b)))
+  | "alignr4", [a, b] => do
+      let a ← lanesOfBytes a; let b ← lanesOfBytes b
+      pure (hexOfBytes (bytesOfV4 (mm_alignr_epi8_4 a b)))
+  | "srli64_17", [a] => (lanesOfBytes a).map fun a => hexOfBytes (bytesOfV4 (mm_srli_epi64 a 17))
+  | "srli64_19", [a] => (lanesOfBytes a).map fun a => hexOfBytes (bytesOfV4 (mm_srli_epi64 a 19))
+  | _, _ => none
+
 def step (args : List String) (_ : Unit) (toks : List String) : Unit × String :=
   let paths := " ".intercalate (["sha", "crc", "aes", "ctr"].map fun k => k ++ "=" ++ argVal args k)
   match toks with
@@ -75,6 +106,10 @@ def step (args : List String) (_ : Unit) (toks : List String) : Unit × String :
         let calls := callsOf (crcVariant args) align.toNat! cs
         let l2 := " ".intercalate ((crcStates calls Gen.CpuPaths.crcInitState).map showState)
         ((), hexOfBytes (Spec.Crc32c.crc32c cs.flatten) ++ " | " ++ l2)
+      | none => ((), "bad-op")
+  | "insn" :: name :: ops =>
+      match allBytes ops with
+      | some os => ((), "insn | " ++ ((insn name os).getD "bad-insn"))
       | none => ((), "bad-op")
   | _ => ((), "bad-op")
 
